@@ -52,6 +52,10 @@ def _moved_from(ctx, site, stale):
         f = _outer(k.split("|", 1)[0])
         if f == g or (callers and callers <= {f}) or (callers and all(_callers(ctx).get(c_, set()) and _callers(ctx).get(c_, set()) <= {f} and c_ != g for c_ in callers)):
             return k
+        # the same construct, written in several functions, merged into one helper that all of them call (`send_error` for the two places that
+        # answered with an error): every caller has lost a construct of this kind, and this one is theirs
+        if f in callers and all(any(_kind_of_key(k2) == kind and _outer(k2.split("|", 1)[0]) == c_ for k2 in stale) for c_ in callers):
+            return k
     return None
 
 
